@@ -14,7 +14,7 @@ reaches, so that a non-terminating C loop is a log mismatch instead of a hang.
  B  loop bodies: for each of ~40 loop kinds (range shapes, list/tuple typed+untyped, reversed, enumerate
     with/without start, str/bytes/bytearray typed+untyped incl. Py_UCS4 targets, dict plain/.keys()/
     .values()/.items() typed+untyped, set/frozenset, C arrays and C array slices) every sequence without
-    repetition of <= 2 (quick) / <= 3 (thorough, main kinds) actions from the kind's alphabet
+    repetition of <= 2 (quick: 8 main kinds, <= 1 others) / <= 3 (thorough: main kinds, <= 2 others) actions from the kind's alphabet
     {continue-if, break-if, reassign loop variable, raise, rebind the iterable name, container
     mutations (append/pop/insert/setitem/clear, add key/replace value/delete key/swap key, add/discard)}
     run on containers of several sizes; else clause logs; the function returns the final loop
@@ -32,7 +32,7 @@ TECHNIQUE = 'exhaustive product of range triples x static shapes x target types,
 LEVEL_TEXT = ('All range(start, stop, step) triples over {-3..3,10}^3 (incl. step 0) in literal / literal-step / run-time '
               'shapes, plain and reversed, for 7 loop-target typings, plus ranges within 3 of the target type bounds; and '
               'for ~40 loop kinds (range, list, tuple, reversed, enumerate, str, bytes, bytearray, dict views, set, C array) '
-              'every repetition-free sequence of <= 2 (quick) / <= 3 (thorough) body actions (continue, break, reassign, '
+              'every repetition-free sequence of <= 2 (quick: 8 main kinds, others <= 1) / <= 3 (thorough: 4 main kinds, others <= 2) body actions (continue, break, reassign, '
               'raise, rebind, container mutations) on containers of several sizes.  The ordered log of visited values, '
               'else-clause execution, final loop variable, mutated container and exception type must equal CPython on '
               'the same source.')
@@ -323,7 +323,10 @@ def family_bodies(tier):
     b = Builder()
     for name, k in kinds(tier).items():
         letters = sorted(k['letters'])
-        depth = (2 if k['main'] else 1) if quick else (3 if k['main'] else 2)
+        qmain = name in ('range-var/int/cb', 'list/typed', 'revlist/typed', 'bytearray/typed', 'dict/items/typed', 'dict/plain/typed',
+                         'set/typed', 'str/typed')
+        tmain = name in ('range-var/int/cb', 'list/typed', 'dict/items/typed', 'set/typed')
+        depth = (2 if qmain else 1) if quick else (3 if tmain else 2)
         for d in range(depth + 1):
             for seq in itertools.permutations(letters, d):
                 b.add(k['params'], body_source(k, seq), 'body/%s/%s' % (name, '+'.join(seq) or '-'), k['inputs'], k['setname'])
@@ -511,8 +514,13 @@ def keyfn(tag, inp, exp, got):
         # loop kind without the action sequence (a root cause shows with many action sets); dict/set views collapse
         kindname = '/'.join(parts[1:-1])
         if kindname.startswith(('dict', 'set', 'frozenset')):
-            kindname = kindname.split('/')[0] + '/mutation' if parts[-1] != '-' else kindname
-            where = ''
+            acts = set(parts[-1].split('+'))
+            same = acts & {'swap', 'popadd'} or {'add', 'delk'} <= acts or {'add', 'discard'} <= acts or {'delk', 'setv'} <= acts
+            resize = acts & {'add', 'delk', 'clear', 'popitem', 'discard'}
+            cls = 'mutation' if same else 'resize' if resize else 'value-change' if 'setv' in acts else None      # 'mutation' = same-size key change
+            if cls:
+                kindname = kindname.split('/')[0] + '/' + cls
+                where = ''
         tag = 'body/' + kindname
     elif parts[0] == 'range-bound':
         # the loop counter of the target type passes the type bound: direction/typing of the bounds do not matter
